@@ -255,7 +255,7 @@ func init() {
 			if tier == "thorough" {
 				b, b2 = 3, 2
 			}
-			return fmt.Sprintf("the library is rebuilt with its sync import replaced by a cooperative-scheduler shim and with generated Access hooks (before every statement touching a package-level variable, at entry of every pointer-receiver method, classified read/write); 11 three-thread scenarios that collide on every piece of shared state (Register ∥ Codec+decode ×2; RegisterSchema ∥ SchemaForType ∥ NewEncoderFor; shared-codec decode ×3 with pooled banks, closing at once or keeping banks open; shared-codec encode ×3 incl. map iteration; ReadFile ×2 + a third thread closing banks handed over through a channel; timestamp decode ×3 with the same / different / X,Y,Y not-yet-cached zone offsets; a mix) are explored over ALL schedules with at most %d preemptions where every Lock/Unlock/RLock/RUnlock/Pool.Get/Pool.Put/channel operation is a scheduling point and every Pool.Get answer a choice, and again with every Access hook as an additional scheduling point with at most %d preemptions; per schedule: vector-clock happens-before check of all hooked accesses (lock release→acquire, pool put→get, channel send→recv edges), deadlock detection, and comparison of every thread's observation with what a sequential order allows; auxiliary: the same bodies free-running on 16 goroutines under Go's race detector; distinct_nontrivial = schedules executed", b, b2)
+			return fmt.Sprintf("the library is rebuilt with its sync import replaced by a cooperative-scheduler shim and with generated Access hooks (before every statement touching a package-level variable, at entry of every pointer-receiver method, classified read/write); 12 three-thread scenarios that collide on every piece of shared state (Register ∥ Codec+decode ×2; RegisterSchema ∥ SchemaForType ∥ NewEncoderFor; Register(T1) ∥ Register(T2) ∥ build with a final both-in-effect check; shared-codec decode ×3 with pooled banks, closing at once or keeping banks open; shared-codec encode ×3 incl. map iteration; ReadFile ×2 + a third thread closing banks handed over through a channel; timestamp decode ×3 with the same / different / X,Y,Y not-yet-cached zone offsets; a mix) are explored over ALL schedules with at most %d preemptions where every Lock/Unlock/RLock/RUnlock/Pool.Get/Pool.Put/channel operation is a scheduling point and every Pool.Get answer a choice, and again with every Access hook as an additional scheduling point with at most %d preemptions; per schedule: vector-clock happens-before check of all hooked accesses (lock release→acquire, pool put→get, channel send→recv edges), deadlock detection, and comparison of every thread's observation with what a sequential order allows; auxiliary: the same bodies free-running on 16 goroutines under Go's race detector; distinct_nontrivial = schedules executed", b, b2)
 		},
 		Assumptions: []string{
 			"sequentially consistent interleavings at the granularity of synchronisation operations (and of instrumented accesses in the second pass); weak-memory effects are outside the model",
